@@ -708,12 +708,6 @@ func (g *Gen) build(t *rapid.T, kind string) *spec {
 			if U(t, "newKeyExisting", 6) == 0 {
 				nk = g.candKey(t, "newKeyExist")
 			}
-			// known finding F-D1: changing the key of a current validator in a payout block
-			// makes EndBlock dereference a nil candidate.
-			if g.avoid("D1") && h%g.W.StakePeriod == 0 && g.IsValidator(pk) {
-				g.avoided("D1")
-				pk = ValKey(5000)
-			}
 			s.data = tx.EditCandidatePublicKeyData{PubKey: pk, NewPubKey: nk}
 		case "editCandCommission":
 			s.typ = tx.TypeEditCandidateCommission
